@@ -18,7 +18,10 @@ LEVEL_NOTE = ("os.environ is a parameter of the model; the harness installs the 
 TECHNIQUE = "Lean 4 theorems (frame property of lexical lookup, termination by fuel adequacy) + differential correspondence + metamorphic oracle"
 RULE = ("documents of definitions and nested scopes (depth <= 3) whose words mix literals, $x, $(x), $(a.b), $(.a.b), \\$, all "
         "quote styles, references to scopes, later definitions, themselves and undefined names x environments that do or do not "
-        "define the names; non-trivial = the definition contains a '$'; distinct = (document, env)")
+        "define the names x layouts (one object per line; statements sharing a physical line through ';', one-line scopes, "
+        "objects right after a closing brace; brace on its own line; blank / comment lines); 'earlier' in the oracle is the "
+        "position in the text as written by the generator, not primary_id; non-trivial = the definition contains a '$'; "
+        "distinct = (document, env)")
 ASSUMPTIONS = ["documents are variable-substituted through definition.resolve_variables (what fetch calls)"]
 NAMES = ["a", "b", "c", "s", "t", "x1", "s_b", "t_b", "ab", "sa", "st"]   # incl. names that extend scope names
 ENVN = ["a", "b", "c", "HOME_X", "zz", "x1", "s", "a.b", "s_b", "t_b", "ab", "st"]
@@ -96,15 +99,92 @@ def gen_dense(rng, depth):
     return out
 
 
-def render(nodes, indent=""):
-    s = ""
-    for n in nodes:
-        bang = "!" if n["dis"] else ""
+DEF_ENDS = ["; ", ";", " ;  ", ";\n", "  # $a ; note\n"]     # a definition ends at ';' or at the end of its line
+
+
+def lay_out(rng, nodes, p, last_of_scope=False):
+    """layout choices, stored on the nodes so that every later rendering of (a truncated copy of) the tree is the same:
+    statements that share a physical line (';' separator, one-line scopes 's { x = 1; y = $x }', an object right after a
+    closing brace), the opening brace on its own line, blank and comment lines.  p = how often a choice leaves the
+    one-object-per-line layout"""
+    for i, n in enumerate(nodes):
+        if rng.random() < p * 0.25:
+            n["pre"] = rng.choice(["\n", "# c = $a\n", "\n\n", "  # a = 1; b = $a\n"])
         if n["k"] == "d":
-            s += "%s%s%s = %s\n" % (indent, bang, n["name"], " ".join(n["words"]))
+            if rng.random() < p:
+                n["end"] = rng.choice(DEF_ENDS)
+                if last_of_scope and i == len(nodes) - 1 and rng.random() < 0.5:
+                    n["end"] = " "            # the closing brace ends the value
         else:
-            s += "%s%s%s {\n%s%s}\n" % (indent, bang, n["name"], render(n["kids"], indent + "  "), indent)
-    return s
+            if rng.random() < p:
+                n["open"] = rng.choice(["{ ", "{ ", "{", "\n{\n", "\n{ "])
+            if rng.random() < p:
+                n["end"] = rng.choice([" ", " ", "  ", "  # s = $a\n"])
+            lay_out(rng, n["kids"], p, True)
+
+
+def render(nodes, indent=""):
+    out = []
+
+    def bol():
+        return not out or out[-1].endswith("\n")
+
+    def walk(ns, ind):
+        for n in ns:
+            if "pre" in n and bol():
+                out.append(n["pre"])
+            if bol():
+                out.append(ind)
+            bang = "!" if n["dis"] else ""
+            if n["k"] == "d":
+                out.append("%s%s = %s" % (bang, n["name"], " ".join(n["words"])))
+                out.append(n.get("end", "\n"))
+            else:
+                out.append("%s%s " % (bang, n["name"]))
+                out.append(n.get("open", "{\n"))
+                walk(n["kids"], ind + "  ")
+                if bol():
+                    out.append(ind)
+                out.append("}")
+                out.append(n.get("end", "\n"))
+    walk(nodes, indent)
+    if not bol():
+        out.append("\n")
+    return "".join(out)
+
+
+class _Mismatch(Exception):
+    pass
+
+
+def positions(nodes, root):
+    """document-order ordinal of every parsed object, read off the generator's tree and NOT off primary_id (the state the
+    implementation itself orders by): the k-th object written gets k; the scopes a dotted name stands for are written
+    with their object and share its ordinal.  None if the parsed tree is not the tree that was written."""
+    pos = {}
+    k = [0]
+
+    def walk(ns, sc):
+        if len(ns) != len(sc.objects):
+            raise _Mismatch()
+        for n, o in zip(ns, sc.objects):
+            k[0] += 1
+            comps = n["name"].split(".")
+            for c in comps[:-1]:
+                if not o.is_scope or o.name != c or len(o.objects) != 1:
+                    raise _Mismatch()
+                pos[id(o)] = k[0]
+                o = o.objects[0]
+            if o.name != comps[-1] or bool(o.is_scope) != (n["k"] == "s"):
+                raise _Mismatch()
+            pos[id(o)] = k[0]
+            if n["k"] == "s":
+                walk(n["kids"], o)
+    try:
+        walk(nodes, root)
+    except _Mismatch:
+        return None
+    return pos
 
 
 def truncate_after(nodes, target):
@@ -172,7 +252,12 @@ def run(ctx):
         dense = i % 4 == 1
         nodes = gen_dense(rng, rng.choice([0, 1, 2])) if dense else gen_nodes(rng, rng.choice([0, 1, 2, 3]))
         ctx.count("dense_documents" if dense else "mixed_documents")
+        # layout: 2 of 5 documents one object per line, the rest with statements sharing physical lines
+        p = rng.choice([0, 0, 0.15, 0.5, 1.0])
+        if p:
+            lay_out(rng, nodes, p)
         text = render(nodes)
+        ctx.count("layout_one_per_line" if not p else "layout_shared_lines_p%s" % p)
         env = {k: rng.choice(["E" + k, "v w", ""]) for k in ENVN if rng.random() < 0.4}
         try:
             root = freephil.parse(input_string=text)
@@ -181,6 +266,11 @@ def run(ctx):
             continue
         diff = rng.random() < 0.15
         defs = all_defs(root)
+        pos = positions(nodes, root)
+        if pos is None:
+            ctx.count("parsed_tree_differs_from_written_tree")   # the position-based clauses are skipped for it
+        else:
+            same_line(ctx, defs, pos)
         with env_as(env):
             impl = [resolve_j(d, diff) for d in defs]
         ctx.case((text, tuple(sorted(env.items())), diff), nontrivial="$" in text)
@@ -203,11 +293,11 @@ def run(ctx):
             ctx.count("outcome_" + (out[0] if out[0] == "ok" else out[2]))
         # ---- oracle
         for d, out in zip(defs, impl):
-            f = clauses(d, out, diff) or lookup_clause(root, d, out, env, diff)
+            f = clauses(d, out, diff) or lookup_clause(root, d, out, env, diff, pos)
             if f:
                 ctx.fail({"text": text, "env": env, "diff": diff, "definition": d.full_path()}, f)
-        if dense and not diff:
-            f = dense_clause(root, nodes, defs, impl, env)
+        if dense and not diff and pos is not None:
+            f = dense_clause(root, nodes, defs, impl, env, pos)
             if f:
                 ctx.fail(dict({"text": text, "env": env}, **f[0]), f[1])
         if not diff:
@@ -216,6 +306,16 @@ def run(ctx):
                 ctx.fail({"text": text, "env": env}, f)
         if i % 200 == 0:
             ctx.sample({"text": text, "env": env, "resolved": [o if o[0] != "ok" else [dec(w[0]) for w in o[1]] for o in impl][:6]})
+
+
+def same_line(ctx, defs, pos):
+    """distribution: definitions that have an earlier object starting on their own physical line"""
+    first = {}
+    for d in defs:
+        ln = d.words[0].line_number if d.words else None
+        if ln in first and first[ln] < pos[id(d)]:
+            ctx.count("definitions_sharing_a_line_with_an_earlier_one")
+        first.setdefault(ln, pos[id(d)])
 
 
 def enclosing_scopes(root, d):
@@ -249,16 +349,16 @@ def relative_matches(scope, name):
     return out
 
 
-def ref_lookup(root, d, name):
+def ref_lookup(root, d, name, pos):
     """independent reading of the statement: the nearest object named `name` relative to an enclosing scope of d
     (searched outward; root-anchored with a leading '.') that appears earlier in the document; None if there is none"""
     chain = enclosing_scopes(root, d)
     if name.startswith("."):
         chain, name = [root], name[1:]
     for scope in chain:
-        # "appears earlier": document-order position (the scopes a dotted name creates share their definition's position)
-        hits = [o for o in relative_matches(scope, name)
-                if o is not d and o.primary_id is not None and o.primary_id < d.primary_id]
+        # "appears earlier": position in the text as written (`positions`), whatever the layout - several statements on
+        # one line are still one after the other (the scopes a dotted name creates share their definition's position)
+        hits = [o for o in relative_matches(scope, name) if o is not d and pos[id(o)] < pos[id(d)]]
         if hits:
             return hits[-1]
     return None
@@ -268,7 +368,7 @@ class _Refused(Exception):
     pass
 
 
-def reference_resolve(root, d, specs, spec_of, env):
+def reference_resolve(root, d, specs, spec_of, env, pos):
     """the statement read directly, for documents whose words are generated from (quote, fragments) specifications:
     every reference denotes the nearest earlier definition *seen from the definition that contains the reference*"""
     out = []
@@ -281,7 +381,7 @@ def reference_resolve(root, d, specs, spec_of, env):
             if k == "lit":
                 vals.append([(v, None)])
                 continue
-            t = ref_lookup(root, d, v)
+            t = ref_lookup(root, d, v, pos)
             if t is None:
                 if v in env:
                     vals.append([(env[v], '"')])
@@ -289,7 +389,7 @@ def reference_resolve(root, d, specs, spec_of, env):
                 raise _Refused("undefined")
             if t.is_scope:
                 raise _Refused("scope")
-            vals.append(reference_resolve(root, t, spec_of[id(t)], spec_of, env))
+            vals.append(reference_resolve(root, t, spec_of[id(t)], spec_of, env, pos))
         if q is None and len(frags) == 1:
             out.extend(vals[0])
         else:
@@ -305,7 +405,7 @@ def flat_nodes(nodes):
             yield from flat_nodes(n["kids"])
 
 
-def dense_clause(root, nodes, defs, impl, env):
+def dense_clause(root, nodes, defs, impl, env, pos):
     """dense documents: every definition against the reference reading"""
     dn = list(flat_nodes(nodes))
     if len(dn) != len(defs):
@@ -314,7 +414,7 @@ def dense_clause(root, nodes, defs, impl, env):
     from common import quote_tag
     for d, out in zip(defs, impl):
         try:
-            want = reference_resolve(root, d, spec_of[id(d)], spec_of, env)
+            want = reference_resolve(root, d, spec_of[id(d)], spec_of, env, pos)
         except _Refused as e:
             if out[0] != "err":
                 return ({"definition": d.full_path()}, "reference reading refuses (%s) but the result is %r" % (e, out))
@@ -327,9 +427,9 @@ def dense_clause(root, nodes, defs, impl, env):
     return None
 
 
-def lookup_clause(root, d, out, env, diff):
+def lookup_clause(root, d, out, env, diff, pos):
     """a word that is exactly one unquoted variable takes over the words of the nearest earlier definition"""
-    if len(d.words) != 1 or d.words[0].quote_token is not None or diff:
+    if len(d.words) != 1 or d.words[0].quote_token is not None or diff or pos is None:
         return None
     v = d.words[0].value
     if v.startswith("$(") and v.endswith(")") and v.count("$") == 1 and ")" not in v[2:-1]:
@@ -340,7 +440,7 @@ def lookup_clause(root, d, out, env, diff):
         return None
     if not freephil.is_standard_identifier(name[1:] if name.startswith(".") else name):
         return None
-    target = ref_lookup(root, d, name)
+    target = ref_lookup(root, d, name, pos)
     if target is None:
         if name in env:
             want = ["ok", [[enc(env[name]), "d1", None]]]
